@@ -18,11 +18,11 @@ META = {
                   "typelib.ctx.TypeContext", "typelib.py.inspection.args/normalize_typevar/isunresolvable/origin",
                   "typelib.*.routines.*.__init__ (context lookups)"],
     "bounds": {
-        "quick": "39 leaves (PEP 604 unions of plain classes, int, str, None, Any, object, bare list/dict/tuple/set/frozenset, typing.List/Dict/Tuple/Set/FrozenSet/Sequence/Mapping/MutableMapping/Collection/Iterable/Deque, hint-less classes with a C constructor (Exception / tzinfo subclasses), TypeVar free/bound/constrained, "
+        "quick": "42 leaves (collections.abc spellings, PEP 604 unions of plain classes, int, str, None, Any, object, bare list/dict/tuple/set/frozenset, typing.List/Dict/Tuple/Set/FrozenSet/Sequence/Mapping/MutableMapping/Collection/Iterable/Deque, hint-less classes with a C constructor (Exception / tzinfo subclasses), TypeVar free/bound/constrained, "
                  "a class without hints, a bare and a parameterised user Generic, a dataclass, Callable, type, Decimal, date, Literal, "
                  "Enum) under 14 constructors (list, set, dict[str,.], tuple[., ...], tuple[., .], Optional, Union[., .], Sequence, "
                  "Mapping[str,.], Box[.], Callable[[.], .], type[.], Final, two variadic tuples): depth 1 exhaustively, depth 2 for every "
-                 "pair of unary constructors over all leaves; 40 s per production",
+                 "pair of unary constructors over all leaves; 90 s per production",
         "thorough": "depth 2 for binary constructors too, depth 3 for unary chains (budgeted)",
     },
     "assumptions": ["'working' = construction returns without an exception or RecursionError within the interpreter's default limit; "
@@ -72,6 +72,7 @@ def leaves():
         ("Deque", t.Deque), ("AppError", AppError), ("Zone", Zone),
         # PEP 604 unions of plain classes (their text has no bracket)
         ("int|str", int | str), ("int|None", int | None), ("NoHints|None", NoHints | None),
+        ("abc.Callable", collections.abc.Callable), ("abc.Mapping", collections.abc.Mapping), ("abc.Sequence", collections.abc.Sequence),
     ]
 
 
@@ -309,7 +310,7 @@ def make_leaves(timeout):
 
 
 def conditions(tier, seed):
-    to = 40.0 if tier == "quick" else 180.0
+    to = 90.0 if tier == "quick" else 240.0
     out = [make_leaves(to)]
     out += [make_depth1(i, True, to) for i in range(len(UNARY))]
     out += [make_depth1(i, False, to) for i in range(len(BINARY))]
